@@ -69,9 +69,12 @@ def run_contracts(reg, cons, hooks=None, procs=None, second=False):
     procs = procs or min(int(os.environ.get("PYVC_PROCS", "16")), max(1, len(items)))
     if procs == 1:
         return [_task(it) for it in items]
-    ctx = mp.get_context("fork")
-    with ctx.Pool(procs) as pool:
-        return list(pool.imap_unordered(_task, items, chunksize=1))
+    from .pool import robust_map
+
+    def crashed(it):
+        return {"contract": it[1], "case": it[2], "records": [], "paths": 0, "unsupported": None, "gen_s": 0.0, "assumed_used": {},
+                "error": "checker exception: the worker process died three times on this task (solver crash)"}
+    return robust_map(_task, items, procs, crashed)
 
 
 def function_info(con):
